@@ -6,20 +6,29 @@ import SpecterModel.C13.Drv
 import SpecterModel.C15.Drv
 import SpecterModel.C16.Drv
 import SpecterModel.C17.Drv
+import SpecterModel.C19.Drv
+import SpecterModel.C20.Drv
 import SpecterModel.C21.Drv
 import SpecterModel.C24.Drv
 import SpecterModel.C25.Drv
+import SpecterModel.C26.Drv
 import SpecterModel.C27.Drv
 import SpecterModel.C28.Drv
 import SpecterModel.C29.Drv
+import SpecterModel.C30.Drv
 import SpecterModel.C31.Drv
+import SpecterModel.C32.Drv
 import SpecterModel.C34.Drv
 import SpecterModel.C35.Drv
 import SpecterModel.C36.Drv
+import SpecterModel.C38.Drv
 import SpecterModel.C39.Drv
 import SpecterModel.C43.Drv
+import SpecterModel.C44.Drv
 import SpecterModel.C45.Drv
 import SpecterModel.C46.Drv
+import SpecterModel.C47.Drv
+import SpecterModel.C49.Drv
 import SpecterModel.C51.Drv
 
 def main (args : List String) : IO UInt32 := do
@@ -32,19 +41,28 @@ def main (args : List String) : IO UInt32 := do
   | ["C15"] => do Specter.C15.main; return 0
   | ["C16"] => do Specter.C16.main; return 0
   | ["C17"] => do Specter.C17.main; return 0
+  | ["C19"] => do Specter.C19.main; return 0
+  | ["C20"] => do Specter.C20.main; return 0
   | ["C21"] => do Specter.C21.main; return 0
   | ["C24"] => do Specter.C24.main; return 0
   | ["C25"] => do Specter.C25.main; return 0
+  | ["C26"] => do Specter.C26.main; return 0
   | ["C27"] => do Specter.C27.main; return 0
   | ["C28"] => do Specter.C28.main; return 0
   | ["C29"] => do Specter.C29.main; return 0
+  | ["C30"] => do Specter.C30.main; return 0
   | ["C31"] => do Specter.C31.main; return 0
+  | ["C32"] => do Specter.C32.main; return 0
   | ["C34"] => do Specter.C34.main; return 0
   | ["C35"] => do Specter.C35.main; return 0
   | ["C36"] => do Specter.C36.main; return 0
+  | ["C38"] => do Specter.C38.main; return 0
   | ["C39"] => do Specter.C39.main; return 0
   | ["C43"] => do Specter.C43.main; return 0
+  | ["C44"] => do Specter.C44.main; return 0
   | ["C45"] => do Specter.C45.main; return 0
   | ["C46"] => do Specter.C46.main; return 0
+  | ["C47"] => do Specter.C47.main; return 0
+  | ["C49"] => do Specter.C49.main; return 0
   | ["C51"] => do Specter.C51.main; return 0
   | _ => do IO.eprintln "usage: modeld <property id>"; return 2
